@@ -432,15 +432,53 @@ def rule_restore_flush(ctx: Ctx, repo: Repo) -> None:
     rets = returns_of(tr)
     ctx.check(len(rets) == 1 and is_call_to(rets[0][1], "trace_calls"), "R-C03.3", tr.fq,
               "monkeytype.trace returns the trace_calls context manager unchanged", construct="; ".join(norm(n.ast) for n, _ in rets))
-    rh = repo.fn("monkeytype.cli", "run_handler")
+    rule_run_handler(ctx, repo)
+
+
+def rule_run_handler(ctx: Ctx, repo: Repo) -> None:
+    """`monkeytype run`: interpreted for -m and path scripts; the script runs strictly inside the tracing context"""
+    from mtsa.absint import K, R, S, U
+    from .cli_model import CLI, CliScenario
+    rh = repo.fn(CLI, "run_handler")
     ctx.functions.add(rh.fq)
-    withs = [x for x in walk_no_nested(rh.node) if isinstance(x, ast.With) and any(is_call_to(i.context_expr, "trace") for i in x.items)]
-    ctx.check(len(withs) == 1, "R-C03.3", rh.fq, "`monkeytype run` executes the script inside `with trace(config)`", construct=f"{len(withs)} with-trace blocks")
-    for wnode in withs:
-        runs = [c for c in calls_in(rh.node) if (dotted(c.func) or "").startswith("runpy.")]
-        inside = [c for s in wnode.body for c in calls_in(s) if (dotted(c.func) or "").startswith("runpy.")]
-        ctx.check(len(runs) == len(inside) and len(runs) >= 1, "R-C03.3", rh.fq, "every script execution happens inside the tracing context",
-                  construct=f"{len(inside)} of {len(runs)} runpy calls inside")
+    ps = rh.positional_params()
+    n = 0
+    for as_module in (False, True):
+        def hook(call, fname, fval, args, kwargs, st):
+            d = fname or ""
+            if d == "trace" or d.endswith(".trace"):
+                return R("tracectx", config=st.freeze(args[0]) if args else K(None))
+            if d.startswith("runpy."):
+                st.effects.append(("runpy", d))
+                return K(None)
+            if d in ("sys.argv.copy",):
+                return R("opaque", what=K("argv"))
+            return None
+        sc = CliScenario(repo, CLI, "run_handler", hook)
+        args = R("args", config=S("config"), script_path=K("script.py"), script_args=R("list", items=()), m=K(as_module))
+        o = sc.run({ps[0]: args, ps[1]: K("stdout"), ps[2]: K("stderr")})
+        depth = 0
+        inside = outside = 0
+        entered = 0
+        for e in o.effects:
+            if e[0] == "with-enter" and isinstance(e[2], R) and e[2].kind == "tracectx":
+                depth += 1
+                entered += 1
+                cfg_ok = e[2].fields["config"] == S("config")
+            elif e[0] == "with-exit" and depth > 0 and "trace" in str(e[1]):
+                depth -= 1
+            elif e[0] == "runpy":
+                if depth > 0:
+                    inside += 1
+                else:
+                    outside += 1
+        n += 1
+        lab = f"run {'-m module' if as_module else 'path'}"
+        ctx.check(entered == 1 and cfg_ok, "R-C03.3", rh.fq, "`monkeytype run` executes the script inside `with trace(config)`",
+                  construct=f"{lab}: {entered} tracing context(s) entered")
+        ctx.check(inside == 1 and outside == 0, "R-C03.3", rh.fq, "every script execution happens inside the tracing context",
+                  construct=f"{lab}: {inside} inside, {outside} outside")
+    ctx.floor("R-C03.3", "run_handler scenarios", n, 2)
 
 
 HARMLESS_CALLS = {"sys.setprofile", "sys.getprofile", "list", "tuple", "dict", "set", "len", "isinstance", "iter", "sorted"}
